@@ -179,7 +179,7 @@ async def victim(chain, seed, uid, lk, ck, direction):
             return False
         if direction == "c2s":
             # the origin stops reading after the header and resets 0.4 s later; the client keeps pushing
-            conn.write(tunnel_header(uid, 4 << 20, 0, F_STALL_RST) + b"\xa5" * (3 << 20))
+            conn.write(tunnel_header(uid, 16 << 20, 0, F_STALL_RST) + b"\xa5" * (8 << 20))
             try:
                 await asyncio.wait_for(conn.drain(), 2.0)
             except Exception:
@@ -188,7 +188,8 @@ async def victim(chain, seed, uid, lk, ck, direction):
             conn.abort()
         else:
             # the origin blasts 4 MiB at a client that never reads and resets
-            conn.write(tunnel_header(uid, HLEN, 4 << 20, 0))
+            conn.w.transport.pause_reading()
+            conn.write(tunnel_header(uid, HLEN, 8 << 20, 0))
             await conn.drain()
             await asyncio.sleep(0.4)
             conn.abort()
